@@ -60,6 +60,13 @@ def dictCompM (d : List (Char × Nat)) (f : Char → R Nat) : R (List (Char × N
 def unpack2 (l : List Nat) : R (Nat × Nat) := match l with | [a, b] => .ok (a, b) | _ => .error .ValueError
 def unpack3 (l : List Nat) : R (Nat × Nat × Nat) := match l with | [a, b, c] => .ok (a, b, c) | _ => .error .ValueError
 
+/-- `tokens[k] = v` for `k ≥ 0` -/
+def toksSet (l : List Token) (k : Nat) (v : Token) : R (List Token) :=
+  if k < l.length then .ok (l.set k v) else .error .IndexError
+
+/-- `str(n)` for an int -/
+def strOfInt (n : Int) : Token := (toString n).toList
+
 /-- `tokens[i]` with Python's negative-index wrap-around -/
 def toksAt (l : List Token) (i : Int) : R Token := Py.getIdx l i
 
